@@ -22,8 +22,13 @@
 (*   - a call that reports an error has left the old binding in place, a   *)
 (*     call that reports success the new one (ErrorMeansOld, OkMeansNew).  *)
 (*                                                                         *)
+(* A file opened for the new content without O_EXCL or O_TRUNC (and not    *)
+(* truncated afterwards) may still hold the bytes of an earlier,           *)
+(* interrupted save beyond what this save writes: re-binding the live name *)
+(* to it breaks ReplaceComplete.                                           *)
+(*                                                                         *)
 (* Not required (free for the implementation): the temporary file's name   *)
-(* and directory, O_EXCL, whether and when chmod is called, how writes are *)
+(* and directory, whether and when chmod is called, how writes are         *)
 (* split, extra fsyncs (also of the directory), the order of close and     *)
 (* fsync-independent steps, whether a failed save removes its temporary    *)
 (* file.                                                                   *)
@@ -34,7 +39,7 @@
 (***************************************************************************)
 EXTENDS Naturals, FiniteSets, TLC
 
-VARIABLES files,      \* path -> [w, dur, mode] for the files this save created (the live file is not in here)
+VARIABLES files,      \* path -> [w, dur, mode, stale] for the files this save created (the live file is not in here)
           liveVis,    \* what the live name is bound to in the visible directory: "old" | "gone" | a path of `files`' history
           liveDur,    \* the same on disk
           bound,      \* the record of the file the live name was re-bound to (its path is gone from `files`), or NoFile
@@ -44,7 +49,7 @@ VARIABLES files,      \* path -> [w, dur, mode] for the files this save created 
 
 fsvars == <<files, liveVis, liveDur, bound, touched, result, n>>
 
-NoFile == [some |-> FALSE, w |-> 0, dur |-> 0, mode |-> 384]
+NoFile == [some |-> FALSE, w |-> 0, dur |-> 0, mode |-> 384, stale |-> FALSE]
 
 FsInit(size) ==
   /\ files = <<>> /\ liveVis = "old" /\ liveDur = "old" /\ bound = NoFile /\ touched = FALSE /\ result = "none" /\ n = size
@@ -54,13 +59,20 @@ With(f, p, r) == [q \in DOMAIN f \cup {p} |-> IF q = p THEN r ELSE f[q]]
 Without(f, p) == [q \in DOMAIN f \ {p} |-> f[q]]
 
 (* --- calls -------------------------------------------------------------------- *)
-Create(p, mode) ==                       \* open(p, O_CREAT...): a new, empty file
-  /\ files' = With(files, p, [w |-> 0, dur |-> 0, mode |-> mode])
+\* open(p, O_CREAT...).  fresh: the call guarantees an empty file (O_EXCL or O_TRUNC); without that guarantee a file left
+\* behind under the same name by an earlier, interrupted save keeps its bytes beyond what this save writes (stale)
+Create(p, mode, fresh) ==
+  /\ files' = With(files, p, [w |-> 0, dur |-> 0, mode |-> mode, stale |-> ~fresh])
   /\ UNCHANGED <<liveVis, liveDur, bound, touched, result, n>>
 
 Write(p, k) ==                           \* k bytes appended to a file this save created
   /\ Known(p)
   /\ files' = [files EXCEPT ![p].w = @ + k]
+  /\ UNCHANGED <<liveVis, liveDur, bound, touched, result, n>>
+
+Truncate(p) ==                           \* ftruncate(p, 0): whatever was there is gone
+  /\ Known(p)
+  /\ files' = [files EXCEPT ![p].w = 0, ![p].dur = 0, ![p].stale = FALSE]
   /\ UNCHANGED <<liveVis, liveDur, bound, touched, result, n>>
 
 Chmod(p, mode) ==
@@ -81,8 +93,8 @@ Close(p) == UNCHANGED fsvars             \* closing changes nothing that matters
 
 RenameToLive(p) ==                       \* rename(p, live): the live name is re-bound atomically
   /\ liveVis' = "new"
-  /\ bound' = IF Known(p) THEN [some |-> TRUE, w |-> files[p].w, dur |-> files[p].dur, mode |-> files[p].mode]
-               ELSE [some |-> TRUE, w |-> 0, dur |-> 0, mode |-> 0]                \* a file this save never wrote
+  /\ bound' = IF Known(p) THEN [some |-> TRUE, w |-> files[p].w, dur |-> files[p].dur, mode |-> files[p].mode, stale |-> files[p].stale]
+               ELSE [some |-> TRUE, w |-> 0, dur |-> 0, mode |-> 0, stale |-> TRUE]   \* a file this save never created
   /\ files' = IF Known(p) THEN Without(files, p) ELSE files
   /\ \/ liveDur' = "new" \/ UNCHANGED liveDur                                    \* on disk now or later
   /\ UNCHANGED <<touched, result, n>>
@@ -108,15 +120,15 @@ Report(r) ==
 (* --- what a reader finds ---------------------------------------------------------- *)
 Content(b) == CASE b = "old" -> (IF touched THEN "Partial" ELSE "Old")
                 [] b = "gone" -> "Missing"
-                [] OTHER -> (IF bound.some /\ bound.w = n THEN "New" ELSE "Partial")
+                [] OTHER -> (IF bound.some /\ bound.w = n /\ ~bound.stale THEN "New" ELSE "Partial")
 VisibleContent == Content(liveVis)
 \* after power loss: the durable binding, with only the flushed part of a re-bound file
 DurableContent ==
   CASE liveDur = "old" -> (IF touched THEN "Partial" ELSE "Old")
     [] liveDur = "gone" -> "Missing"
-    [] OTHER -> (IF bound.some /\ bound.dur = n THEN "New" ELSE "Partial")
+    [] OTHER -> (IF bound.some /\ bound.dur = n /\ ~bound.stale THEN "New" ELSE "Partial")
 \* the binding can reach the disk at any later moment: what power loss may leave once it has
-PendingDurable == IF liveVis = "new" THEN (IF bound.some /\ bound.dur = n THEN "New" ELSE "Partial") ELSE Content(liveVis)
+PendingDurable == IF liveVis = "new" THEN (IF bound.some /\ bound.dur = n /\ ~bound.stale THEN "New" ELSE "Partial") ELSE Content(liveVis)
 
 (* --- properties (C04, C13) ---------------------------------------------------------- *)
 AllOrNothingKill  == VisibleContent \in {"Old", "New"}
@@ -127,6 +139,6 @@ OwnerOnly         == /\ \A p \in DOMAIN files : files[p].mode = 384
 ErrorMeansOld     == result = "error" => liveVis = "old" /\ ~touched
 OkMeansNew        == result = "ok" => VisibleContent = "New"
 \* the step that re-binds the live name finds the new file complete and flushed
-ReplaceComplete   == liveVis = "new" => bound.w = n
+ReplaceComplete   == liveVis = "new" => bound.w = n /\ ~bound.stale
 ReplaceFlushed    == liveVis = "new" => bound.dur = n
 =============================================================================
